@@ -433,6 +433,30 @@ def _helper_cases(src: str, mode="exec"):
                 raise err
             return res
 
+        def consume_with_macro_params(self):
+            n0 = len(self._tokengen.seen)
+            asked = {}
+            orig_get_lines = self.get_lines
+
+            def spy(nums):
+                res = orig_get_lines(nums)
+                for n, ln in zip(nums, res):
+                    asked[n] = ln
+                return res
+
+            self.get_lines = spy
+            try:
+                res = super().consume_with_macro_params()
+            finally:
+                del self.get_lines
+            pulled = self._tokengen.seen[n0:]
+            table = " ".join(f"{n}={enc_str(ln)}" for n, ln in sorted(asked.items()))
+            toks = " ".join(_enc_tok4(t) + "|" + enc_str(t.line) for t in pulled)
+            req = f"withmacro {table} ## {toks}".replace("  ", " ")
+            exp = f"param|{enc_str(res.string)}|consumed={len(pulled)}|cleared={'false' if self._with_macro else 'true'}"
+            cases.append((req, exp, src))
+            return res
+
     class P(XonshParser):
         def make_arguments(self, pos_only, pos_only_with_default, param_no_default, param_default, after_star):
             res = super().make_arguments(pos_only, pos_only_with_default, param_no_default, param_default, after_star)
@@ -503,7 +527,7 @@ def helper_cases(srcs):
     return out
 
 
-def run_helper_correspondence(rep, cases, kinds=("macro", "makeargs", "builderr")):
+def run_helper_correspondence(rep, cases, kinds=("macro", "withmacro", "makeargs", "builderr")):
     by = {}
     for c in cases:
         k = c[0].split(" ", 1)[0]
@@ -511,7 +535,7 @@ def run_helper_correspondence(rep, cases, kinds=("macro", "makeargs", "builderr"
             by.setdefault(k, []).append(c)
     bad_all = []
     for k, cs in sorted(by.items()):
-        bad_all += run_correspondence(rep, {"macro": "consume_macro_params", "makeargs": "make_arguments", "builderr": "_build_syntax_error"}[k], cs)
+        bad_all += run_correspondence(rep, {"macro": "consume_macro_params", "withmacro": "consume_with_macro_params", "makeargs": "make_arguments", "builderr": "_build_syntax_error"}[k], cs)
     return bad_all
 
 
